@@ -99,6 +99,16 @@ fn main() {
             }
         }
     }
+    #[cfg(feature = "hooks")]
+    if engine == "explain" {
+        // print ruzstd's full error (Debug) for a frame given as a file: a debugging aid for replays
+        let bytes = std::fs::read(opts.replay.as_ref().expect("--replay FILE")).expect("read");
+        let mut d = ruzstd::decoding::FrameDecoder::new();
+        let mut out = Vec::with_capacity(64 << 20);
+        println!("{:?}", d.decode_all_to_vec(&bytes, &mut out));
+        println!("decoded {} bytes", out.len());
+        return;
+    }
     util::install_panic_hook();
     let run = match engines::dispatch(&engine, &opts) {
         Some(r) => r,
